@@ -436,7 +436,7 @@ def gen_model(rng, allow_arith=False, need_shared=0, plain=False):
 def gen_script(rng, interrupt=None):
     n = rng.choice([1, 2, 3, 3, 4, 6])
     vectors = [[dy(rng, 0, 8) for _ in range(12)] for _ in range(n)]
-    pool = [-dy(rng, 0, 32, 4) for _ in range(max(1, n - rng.randint(0, 2)))]  # ties are likely
+    pool = [0.0 - dy(rng, 0, 32, 4) for _ in range(max(1, n - rng.randint(0, 2)))]  # ties are likely (never -0.0)
     logl = [rng.choice(pool) for _ in range(n)]
     # log priors chosen so that the maximum-posterior sample is often not the maximum-likelihood sample
     logp = [rng.choice([0.0, -0.5, -16.0]) for _ in range(n)]
@@ -1130,8 +1130,10 @@ def oracle_scenario(c, r):
                 if not isinstance(f.get(fk), dict) or f[fk].get(nm) != dg:
                     return "fit %s: %s %s missing or different in the database" % (wid, kind, nm)
         if e.get("latent") is not None:
+            def _num(rows_):
+                return [([(k, unhex(v)) for k, v in kv], unhex(ll)) for kv, ll in rows_]
             got = f.get("latent")
-            if not isinstance(got, list) or not got or any(x not in e["latent"] for x in got):
+            if not isinstance(got, list) or not got or any(x not in _num(e["latent"]) for x in _num(got)):
                 return "fit %s: latent samples of the directory are not in the database" % wid
             top = max(unhex(x[1]) for x in e["latent"])
             if not any(unhex(x[1]) == top for x in got):
